@@ -144,6 +144,9 @@ def _checkout_file(
                 prompt=prompt,
             )
     else:
+        # nothing is known about a file that is already there (the old object
+        # could not be built), so it is not known to be in the cache either
+        _remove(path, fs, False, force=force, prompt=prompt)
         link(cache, cache_path, fs, path)
         modified = True
     return modified
